@@ -127,6 +127,48 @@ def _check_logic(task):
                         viol('model-raised', f'reading the model off the open branch raised {type(e).__name__}: {e}')
                 if out['sample'] is None and k == 2:
                     out['sample'] = dict(logic=name, literals=label, closed=closed, satisfying_values=str(sat_vals))
+    # two open branches; after a step on the later one, the literals arrive on the EARLIER branch between steps
+    A_, B_, C_ = G.Atomic(1, 3), G.Atomic(2, 3), G.Atomic(3, 3)
+    w0 = 0 if modal else None
+    s = G.Atomic(0, 0)
+    for sub in ordered_subsets(cons, 2):
+        if not sub:
+            continue
+        out['evals'] += 1
+        out['distinct'] += 1
+        _verif.reset(0)
+        tab = Tableau(L)
+        b0 = tab.branch()
+        b0.append(sdwnode(A_ | (B_ | C_), True if mv else None, w0))
+        steps = 0
+        while steps < 12:
+            e = tab.step()
+            if not e:
+                break
+            steps += 1
+            if e.target.branch is not b0 and not e.target.branch.closed and not b0.closed and len(tab.open) >= 2 and e.target.get('node') is not None \
+                    and e.rule.name.startswith('Disjunction'):
+                break
+        label = f"between-steps|{','.join(cname(c) for c in sub)}"
+        if tab.finished or b0.closed or len(tab.open) < 2:
+            continue
+        try:
+            for which, d in sub:
+                b0.append(sdwnode(s if which == 's' else ~s, d, w0))
+            tab.build()
+        except Exception as e:
+            out['viol'].append(dict(sig=f'{name}|{label}|raised', what=f'{name}: literals [{label}]: raised {type(e).__name__}: {e}', replay=dict(logic=name, tier=tier)))
+            continue
+        satisfiable = bool([v for v in base.values if all(ok_value(v, c) for c in sub)])
+        if b0.closed:
+            out['closed'] += 1
+        else:
+            out['open'] += 1
+        if b0.closed != (not satisfiable):
+            out['viol'].append(dict(sig=f'{name}|{label}|{"closed-but-satisfiable" if b0.closed else "open-but-unsatisfiable"}',
+                                    what=f'{name}: literals [{label}] added to the first of several open branches after a step on a later branch: the branch is '
+                                         f'{"closed" if b0.closed else "open"} but the literals are {"" if satisfiable else "un"}satisfiable',
+                                    replay=dict(logic=name, tier=tier)))
     if modal:
         # the same literal at eight worlds, then a second literal at the last world (added last): closure must not depend on
         # how many nodes carry the sentence elsewhere
